@@ -116,7 +116,7 @@ def forbidden_tokens() -> list[str]:
 
 
 # further theorem files of a property (built and audited with it when present)
-EXTRA_MODULES = {"C03": ["C03Wrap"]}
+EXTRA_MODULES = {"C03": ["C03Wrap"], "C12": ["C12Codec"], "C01": ["C01Api"], "C02": ["C02Scan"]}
 
 
 def modules(prop: str) -> list[str]:
